@@ -4,7 +4,7 @@
    is compared with observed panics) and, for arbitrary flash, is C17's. *)
 From Coq Require Import List NArith.
 Require Import Consts Layout LayoutP.
-Require Mgr MgrP Slots Total.
+Require Mgr MgrP Slots Total Nor Crc CrcTie FinalMark.
 Import ListNotations.
 Open Scope N_scope.
 
@@ -38,7 +38,29 @@ Theorem c04_alloc_total : forall sl,
   (forall i s, RingA.seqat sl i = Some s -> (s < 4294967295)%N) -> Slots.alloc_repaired sl <> Slots.Panic.
 Proof. exact Total.alloc_total. Qed.
 
+(* The final check-and-mark under power loss, on the executable model: [FinalMark.new_ops d d'] are the operations the call
+   appended to the device log (oldest first), [Mgr.crash_mem blk mem ops k torn] is the flash after a power loss that let the
+   first k of them through and tore the next program ([torn] = number of fully programmed bytes and the bits of the next byte
+   that were not yet cleared).  For every fault-free device, session, header of the firmware slot, crash point k and torn
+   outcome: the data region of the firmware slot is untouched, and if the call programmed anything at all - in particular if
+   the slot can read Complete afterwards - the region passes the CRC routine in that crash state. *)
+Theorem c04_final_mark_crash_safe : forall m u d d' r len k torn,
+  Nor.wf (Mgr.dmem d) -> Mgr.dfail d = None ->
+  (Mgr.u_fw u = Mgr.u_par u \/ Mgr.u_fw u <> Mgr.u_par u) ->
+  DATA_REGION_OFFSET + N.of_nat len <= Mgr.m_size m ->
+  Mgr.base m (Mgr.u_fw u) + DATA_REGION_OFFSET + N.of_nat len <= Mgr.dtotal d ->
+  Mgr.check_and_mark_done m u d = (d', r) ->
+  forall h d1, Mgr.load_header m (Mgr.u_fw u) d = (d1, Some (Some h)) ->
+  1 <= Slots.hsize h -> Slots.hcount h <= MAX_SEGMENTS -> Slots.hsize h <= MAX_SEGMENT_SIZE ->
+  (68 <= len)%nat -> (N.to_nat (Slots.hcount h) * N.to_nat (Slots.hsize h) <= len)%nat ->
+  let mm := Mgr.crash_mem (Mgr.dblk d) (Mgr.dmem d) (FinalMark.new_ops d d') k torn in
+  (forall x, Mgr.base m (Mgr.u_fw u) + DATA_REGION_OFFSET <= x < Mgr.base m (Mgr.u_fw u) + DATA_REGION_OFFSET + N.of_nat len -> mm x = Mgr.dmem d x) /\
+  (FinalMark.new_ops d d' <> [] ->
+   Crc.crc_valid (CrcTie.region (Mgr.with_mem d mm) m (Mgr.u_fw u) len) (N.to_nat (Slots.hsize h)) (N.to_nat (Slots.hcount h)) = true).
+Proof. exact FinalMark.final_mark_crash_safe. Qed.
+
 Print Assumptions c04_tear_safe.
+Print Assumptions c04_final_mark_crash_safe.
 Print Assumptions c04_check_gates_mark.
 Print Assumptions c04_validation_readonly.
 Print Assumptions c04_clear_header_first.
